@@ -6,8 +6,9 @@
    Uses Flocq's real-number layer (the four allow-listed axioms). *)
 From Coq Require Import ZArith Reals Bool List Lia Lra Floats.SpecFloat.
 From Flocq Require Import Core.Core IEEE754.BinarySingleNaN.
-Require Import Blots.Num Blots.BuiltinsList Blots.proofs.AggPercentile Blots.proofs.AggRounding
-               Blots.proofs.RecordLaws.
+Require Import Blots.Num Blots.Ast Blots.Value Blots.Outcome Blots.BuiltinsList Blots.proofs.AggPercentile
+               Blots.proofs.AggRounding Blots.proofs.RecordLaws.
+Import ListNotations.
 Open Scope Z_scope.
 
 #[local] Existing Instance Hprec.
@@ -94,3 +95,26 @@ Proof. intros n H. apply count_num_exact_le. lia. Qed.
 (* the bound is sharp: 2^53 + 1.0 = 2^53 (round to even), so one more increment is lost *)
 Lemma count_step_stalls_at_2p53 : nadd (num_of_Z (2 ^ 53)) one = num_of_Z (2 ^ 53).
 Proof. vm_compute. reflexivity. Qed.
+
+(* ---------- count_by: the counts are the group sizes, as doubles, exactly ---------- *)
+Lemma items_with_length_le : forall k keyed, (length (items_with k keyed) <= length keyed)%nat.
+Proof.
+  intros k keyed. unfold items_with. rewrite map_length.
+  induction keyed as [|a keyed IH]; [apply le_n|].
+  cbn [filter]. destruct (String.eqb (fst a) k); cbn [length]; lia.
+Qed.
+
+Theorem count_by_counts_exact :
+  forall St (call : value -> value -> list value -> St -> outcome value * St) func l st r st',
+  Z.of_nat (length l) < 2 ^ 53 ->
+  bi_count_by St call [VList l; func] st = (Ok r, st') ->
+  exists keyed, map snd keyed = l /\
+    r = VRec (map (fun k => (k, VNum (num_of_nat (length (items_with k keyed))))) (first_keys [] (map fst keyed))).
+Proof.
+  intros St call func l st r st' Hl H.
+  destruct (count_by_counts St call func l st r st' H) as (keyed & E & R).
+  exists keyed. split; [exact E|]. rewrite R. f_equal. apply map_ext. intros k.
+  rewrite count_num_exact; [reflexivity|].
+  pose proof (items_with_length_le k keyed) as L.
+  assert (length keyed = length l) by (rewrite <- E; now rewrite map_length). lia.
+Qed.
